@@ -104,7 +104,7 @@ pub proof fn lemma_fold_max_is_the_maximum(init: int, told: Seq<int>)
 //@ implicit [C06,C20]
 //@ requires#start
       old(w).height >= old(w).height_read && old(p).sleeps == old(p).polls
-//@ requires#startup_query_applied [C20]
+//@ requires#startup_query_applied [C20,C04]
       old(w).height >= old(w).last_polled
 //@ ensures#never_decreases [C20,C04]
       final(w).height >= old(w).height
